@@ -246,8 +246,9 @@ func c05Reserved(res *schedulingv1alpha1.Reservation) corev1.ResourceList {
 
 // c05Dims: the reservation's reserved dimensions. For the Restricted policy the restricted-options annotation
 // narrows them to the listed resources ("if no resources configured, by default the resources equal all
-// reserved resources by the Reservation"). ok=false when the documentation does not determine the dimensions
-// (unparsable options, options that name no reserved resource).
+// reserved resources by the Reservation"). A list that names nothing the reservation reserves is not covered by
+// the documentation: then the statement is taken as worded (all reserved resources). ok=false only for an
+// unparsable annotation.
 func c05Dims(res *schedulingv1alpha1.Reservation) (dims map[corev1.ResourceName]bool, ok bool) {
 	dims = map[corev1.ResourceName]bool{}
 	for n := range c05Reserved(res) {
@@ -276,9 +277,49 @@ func c05Dims(res *schedulingv1alpha1.Reservation) (dims map[corev1.ResourceName]
 		}
 	}
 	if len(narrowed) == 0 {
-		return dims, false
+		// The list names nothing the reservation reserves (a resource it does not hold, a mis-cased name).
+		// The documentation of the annotation does not say what that means, so the statement applies as it is
+		// worded: the reservation is Restricted and its reserved dimensions are the resources it reserves.
+		return dims, true
 	}
 	return narrowed, true
+}
+
+// c05OptionsClass: how the restricted-options annotation of a Restricted reservation relates to what it
+// reserves ("" for other policies): none / empty / subset / partial / disjoint (incl. mis-cased names).
+func c05OptionsClass(res *schedulingv1alpha1.Reservation) string {
+	if res == nil || res.Spec.AllocatePolicy != schedulingv1alpha1.ReservationAllocatePolicyRestricted {
+		return ""
+	}
+	s := res.Annotations[apiext.AnnotationReservationRestrictedOptions]
+	if s == "" {
+		return "none"
+	}
+	var opt struct {
+		Resources []corev1.ResourceName `json:"resources"`
+	}
+	if err := json.Unmarshal([]byte(s), &opt); err != nil {
+		return "unparsable"
+	}
+	if len(opt.Resources) == 0 {
+		return "empty"
+	}
+	reserved := c05Reserved(res)
+	in, out := 0, 0
+	for _, n := range opt.Resources {
+		if _, ok := reserved[n]; ok {
+			in++
+		} else {
+			out++
+		}
+	}
+	switch {
+	case in == 0:
+		return "disjoint"
+	case out > 0:
+		return "partial"
+	}
+	return "subset"
 }
 
 // c05InnerReserved: the amount held back inside the reservation (node-reservation annotation on the
@@ -311,35 +352,74 @@ func c05SetInnerReserved(obj metav1.Object, rl corev1.ResourceList) {
 	obj.SetAnnotations(a)
 }
 
-// c05GenOptions sets / replaces / removes the restricted-options annotation; listed resources always include at
-// least one reserved resource.
-func c05GenOptions(r *kit.Rand, res *schedulingv1alpha1.Reservation) {
+// c05GenOptions sets / replaces / removes the restricted-options annotation and returns the class of what it
+// wrote: "none" (annotation removed), "empty" (no resources configured), "subset" (only reserved resources),
+// "partial" (reserved resources plus names the reservation does not reserve), "duplicates", "disjoint" (a
+// non-empty list naming nothing the reservation reserves, e.g. a resource it does not hold) and "miscased"
+// (disjoint by a wrong case: "CPU", "Memory").
+func c05GenOptions(r *kit.Rand, res *schedulingv1alpha1.Reservation) string {
 	if res.Annotations == nil {
 		res.Annotations = map[string]string{}
 	}
-	if r.Pct(45) {
+	if r.Pct(40) {
 		delete(res.Annotations, apiext.AnnotationReservationRestrictedOptions)
-		return
+		return "none"
 	}
 	reserved := c05PodRequests(&corev1.Pod{Spec: res.Spec.Template.Spec})
-	var names []corev1.ResourceName
+	var names, foreign []corev1.ResourceName
 	for _, n := range c05ResNames {
 		if _, ok := reserved[n]; ok {
 			names = append(names, n)
+		} else {
+			foreign = append(foreign, n)
 		}
 	}
+	foreign = append(foreign, "nvidia.com/gpu", "hugepages-2Mi")
 	if len(names) == 0 {
-		return
+		return "none"
 	}
 	opt := &apiext.ReservationRestrictedOptions{}
 	first := kit.Pick(r, names)
-	opt.Resources = append(opt.Resources, first)
-	for _, n := range c05ResNames {
-		if n != first && r.Pct(30) {
-			opt.Resources = append(opt.Resources, n)
+	class := ""
+	switch r.Weighted(44, 8, 12, 10, 14, 12) {
+	case 0:
+		class = "subset"
+		opt.Resources = append(opt.Resources, first)
+		for _, n := range names {
+			if n != first && r.Pct(30) {
+				opt.Resources = append(opt.Resources, n)
+			}
+		}
+	case 1:
+		class = "empty"
+		opt.Resources = []corev1.ResourceName{}
+	case 2:
+		class = "partial"
+		opt.Resources = append(opt.Resources, kit.Pick(r, foreign), first)
+		if r.Bool() {
+			opt.Resources = append(opt.Resources, "CPU")
+		}
+	case 3:
+		class = "duplicates"
+		opt.Resources = append(opt.Resources, first, first)
+		if r.Bool() {
+			opt.Resources = append(opt.Resources, kit.Pick(r, names), first)
+		}
+	case 4:
+		class = "disjoint"
+		opt.Resources = append(opt.Resources, kit.Pick(r, foreign))
+		if r.Bool() {
+			opt.Resources = append(opt.Resources, kit.Pick(r, foreign))
+		}
+	default:
+		class = "miscased"
+		opt.Resources = append(opt.Resources, kit.Pick(r, []corev1.ResourceName{"CPU", "Memory", "Cpu"}))
+		if r.Bool() {
+			opt.Resources = append(opt.Resources, "MEMORY")
 		}
 	}
 	_ = apiext.SetReservationRestrictedOptions(res, opt)
+	return class
 }
 
 // c05AllocateOnce: "Defaults to true" (API documentation of ReservationSpec.AllocateOnce).
